@@ -10,12 +10,19 @@ Inductive op :=
 | OLeave (n : N)
 | OSend (n : N) (mt : N) (size : N) (d : list N)   (* size = bytes on the wire, d = payload symbols *)
 | OEv (e : event)
-| OSettle.
+| OSettle
+| OSendRun (n : N) (mt : N) (size : N) (first : N) (count : nat).   (* count sends of one connection with payload symbols first, first+1, ..., every writer draining after each *)
 
 Definition settle_events (s : state) : list event :=
   flat_map (fun c => concat (repeat (drain (name c) 0) (S (length (queue c))))) (conns s).
 Definition settle (s : state) : state := run s (settle_events s).
 
+(* quiescence computed per connection instead of through the event list: every writer takes the head
+   and closes the frame until its queue is empty (the same model functions [take] and [close_frame];
+   used for large populations, where generating and mapping the event list is quadratic) *)
+Definition drain_client (c : client) : client :=
+  Nat.iter (S (length (queue c))) (fun c => close_frame (take c)) c.
+Definition settle_fast (s : state) : state := mkstate (map drain_client (conns s)) (log s).
 Definition exec_op (s : state) (o : op) : state :=
   match o with
   | OJoin rq => match ws_accept rq with Some c => step s (Register c) | None => s end
@@ -23,10 +30,15 @@ Definition exec_op (s : state) (o : op) : state :=
   | OSend n mt size d => step s (read_event n mt size d)
   | OEv e => step s e
   | OSettle => settle s
+  | OSendRun n mt size first count =>
+      fold_left (fun s k => settle_fast (step s (read_event n mt size [(first + N.of_nat k)%N]))) (seq 0 count) s
   end.
 
 Definition run_script (auto : bool) (ops : list op) : state :=
   fold_left (fun s o => let s' := exec_op s o in if auto then settle s' else s') ops init.
+
+Definition run_script_fast (ops : list op) : state :=
+  fold_left (fun s o => settle_fast (exec_op s o)) ops init.
 
 Definition conn_of (s : state) (n : N) : option client :=
   find (fun c => N.eqb (name c) n) (conns s).
@@ -37,19 +49,40 @@ Definition received (c : client) : list N := sortN (concat (map m_data (concat (
 (* observed per connection attempt: name, whether the hub registered it, the topic /status
    reported for it right after joining ("" when refused), the multiset of payload ids it received *)
 Definition seen := (N * bool * string * list N)%type.
-Definition case := (list op * list seen)%type.
+(* mode 0: the observed multisets must be exactly the model's (run with quiescence after each step);
+   mode 1: refinement for histories whose outcome depends on the hub's order (lagging readers that
+           get dropped, bursts): the model is run with every reader keeping up - the most anybody can
+           receive - and each observed multiset must be CONTAINED in the model's; who registered, and
+           under which topic, must still be exact;
+   mode 2: as 0, quiescence computed per connection (large populations); mode 1 computes it that way too *)
+Definition case := (N * list op * list seen)%type.
 
-Definition seen_ok (s : state) (x : seen) : bool :=
+Fixpoint sub_sorted (a b : list N) : bool :=   (* multiset inclusion of sorted lists *)
+  match b with
+  | [] => match a with [] => true | _ => false end
+  | y :: b' =>
+      (fix go (a : list N) : bool :=
+         match a with
+         | [] => true
+         | x :: a' => if N.eqb x y then sub_sorted a' b' else if N.ltb x y then false else sub_sorted a b'
+         end) a
+  end.
+
+Definition seen_ok (sub : bool) (s : state) (x : seen) : bool :=
   let '(n, joined, t, ids) := x in
   match conn_of s n with
-  | Some c => joined && String.eqb (topic c) t && list_eqb N.eqb (received c) ids
+  | Some c => joined && String.eqb (topic c) t &&
+              (if sub then sub_sorted ids (received c) else list_eqb N.eqb (received c) ids)
   | None => negb joined && match ids with [] => true | _ => false end
   end.
 
+Definition run_mode (mode : N) (ops : list op) : state :=
+  if N.eqb mode 0 then run_script true ops else run_script_fast ops.
+
 Definition case_ok (c : case) : bool :=
-  let '(ops, obs) := c in
-  let s := run_script true ops in
-  forallb (seen_ok s) obs && Nat.eqb (length (conns s)) (length (filter (fun x => snd (fst (fst x))) obs)).
+  let '(mode, ops, obs) := c in
+  let s := run_mode mode ops in
+  forallb (seen_ok (N.eqb mode 1) s) obs && Nat.eqb (length (conns s)) (length (filter (fun x => snd (fst (fst x))) obs)).
 
 (* non-trivial: the hub took at least three messages and delivered at least two, on a run with
    at least two different topics among the registered connections *)
@@ -57,7 +90,7 @@ Definition distinct_topics (s : state) : nat :=
   length (nodup string_dec (map topic (conns s))).
 Definition delivered (s : state) : nat := length (flat_map (fun c => concat (out c)) (conns s)).
 Definition case_nontrivial (c : case) : bool :=
-  let s := run_script true (fst c) in
+  let s := run_mode (fst (fst c)) (snd (fst c)) in
   (3 <=? length (log s))%nat && (2 <=? delivered s)%nat && (2 <=? distinct_topics s)%nat.
 
 Definition mismatches (cs : list case) : list N := mismatch_idx case_ok 0 cs.
